@@ -8,7 +8,7 @@ DECISIONS = ['FileBuilder._apply_cached_suboperations', 'FileBuilder._assert_bui
 SITES = True
 ORDER = False
 PRIOR = ["absent", "foreign_file", "stale_output", "stale_dir", "dir_with_foreign", "overlong", "parent_is_file"]
-MODES = ["ok", "raise_before", "raise_after", "nocreate", "obj"]
+MODES = ["ok", "raise_before", "raise_after", "nocreate", "obj", "raise_type", "raise_os"]
 
 
 def make_cases(rng, tier, budget):
@@ -26,7 +26,10 @@ def make_cases(rng, tier, budget):
                             "raise_before": [["raise", 1]],
                             "raise_after": [["write", ["lit", "x"]], ["raise", 2]],
                             "nocreate": [["ret", ["lit", 0]]],
-                            "obj": [["write", ["lit", "x"]], ["ret", ["obj"]]]}[mode]
+                            "obj": [["write", ["lit", "x"]], ["ret", ["obj"]]],
+                            # user code raising exception classes the library raises itself (same object must come out)
+                            "raise_type": [["write", ["lit", "x"]], ["raise", "TypeError"]],
+                            "raise_os": [["raise", "OSError"]]}[mode]
                     body = [["ask", "e", "exists", target], ["ask", "pd", "is_dir", target[:-1]]] + body
                     funcs = {"f": {"*": body}, "old": {"*": [["write", ["lit", "old"]], ["ret", ["lit", 0]]]}}
                     root = [["build_file", "x", target, rng.choice(["HASH", "METADATA"]), "f", [], {}],
